@@ -14,6 +14,10 @@ pub struct PairSys<A: System, B: System> {
     pub b: B,
     /// both systems are configured identically: (x, y) and (y, x) have symmetric futures and are merged
     pub symmetric: bool,
+    /// the deep audit (`--deep d`) enumerates unmerged suffixes of query operations only (of both objects, in
+    /// every order): queries do not change the snapshot, so the merged search never continues *after* one -
+    /// exactly what a memo shared between the instances needs ("A is asked, then B is asked")
+    pub deep_queries: bool,
 }
 
 impl<A: System, B: System> System for PairSys<A, B> {
@@ -74,6 +78,24 @@ impl<A: System, B: System> System for PairSys<A, B> {
     }
     fn nontrivial(&self, o: &Self::Obj) -> bool {
         self.a.nontrivial(&o.0) && self.b.nontrivial(&o.1)
+    }
+    fn query_ops(&self, o: &Self::Obj) -> Vec<u32> {
+        let mut v = self.a.query_ops(&o.0);
+        v.extend(self.b.query_ops(&o.1).into_iter().map(|x| x | SECOND));
+        v
+    }
+    fn update_ops(&self, o: &Self::Obj) -> Vec<u32> {
+        let mut v = self.a.update_ops(&o.0);
+        v.extend(self.b.update_ops(&o.1).into_iter().map(|x| x | SECOND));
+        v
+    }
+    fn deep_ops(&self, o: &Self::Obj) -> Vec<u32> {
+        if self.deep_queries {
+            return self.query_ops(o);
+        }
+        let mut v = self.a.deep_ops(&o.0);
+        v.extend(self.b.deep_ops(&o.1).into_iter().map(|x| x | SECOND));
+        v
     }
     fn fmt_op(&self, op: u32) -> String {
         if op & SECOND != 0 {
